@@ -146,6 +146,14 @@ func runCrash(id string, toks []string) (res string) {
 		if how != "killed" && how != "exit0" {
 			return "child-" + how
 		}
+		if len(toks) > 5 {
+			// after the restart the application writes again (a leftover of the interrupted write must not matter)
+			st2, _ := util.NewFileStorage(dir)
+			for _, e := range parseKVs(toks[5]) {
+				st2.Set(string(e.k), e.v)
+				keys = append(keys, e.k)
+			}
+		}
 		return readAll(dir, keys)
 	case "crashdb":
 		olds, sets := parseKVs(toks[1]), parseKVs(toks[2])
